@@ -75,7 +75,11 @@ class _dtype_value_context:
         )
 
     def __exit__(self, *args):
-        self.__class__._set_value(self._orig_float_value, self._orig_double_value, self._orig_half_value)
+        # Restore unconditionally: a previous value of None (e.g. no default for half) must be restored too
+        cls = self.__class__
+        cls._global_float_value = self._orig_float_value
+        cls._global_double_value = self._orig_double_value
+        cls._global_half_value = self._orig_half_value
         return False
 
 
